@@ -680,6 +680,57 @@ def fused_map(ctx):
     return _memo(ctx, 'fused_map', build)
 
 
+def _resolve_by_evaluation(F):
+    fn = F.fn('builtins::resolve')
+    lits = set()
+    seen = set()
+
+    def walk(x):
+        if isinstance(x, dict):
+            if x.get('k') == 'const' and isinstance(x.get('str'), str):
+                lits.add(x['str'])
+            ci = x.get('const_item')
+            if ci and ci not in seen:
+                seen.add(ci)
+                walk((F.consts.get(ci) or {}).get('body'))
+            for v in x.values():
+                walk(v)
+        elif isinstance(x, list):
+            for v in x:
+                walk(v)
+    walk(fn.j['blocks'])
+    walk(fn.j.get('promoted'))
+    if not lits:
+        raise CheckerError('builtins::resolve: no string literal decides the answer')
+    other = '\x00no such builtin'
+
+    def answer(s_):
+        res = set()
+        for p in AbsInt(F, fn, {'_1': ('str', s_)}).run():
+            if p.exit != 'return':
+                if p.exit == 'diverge':
+                    continue
+                res.add(('?', p.exit))
+                continue
+            r = simp(p.env.get('_0'))
+            if isinstance(r, tuple) and r and r[0] == 'agg' and r[1] == 'core::option::Option':
+                res.add(variant_name(r[3][0]) if r[2] == 'Some' and r[3] else None)
+            elif isinstance(r, tuple) and r and r[0] == 'enum' and r[2] == 'None':
+                res.add(None)
+            else:
+                res.add(('?', repr(r)[:80]))
+        return next(iter(res)) if len(res) == 1 else ('?', sorted(map(repr, res)))
+    if answer(other) is not None:
+        raise CheckerError('builtins::resolve: a string that is none of its literals is not answered with None (%r)' % (answer(other),))
+    out = {}
+    for s_ in sorted(lits):
+        a = answer(s_)
+        if a is None:
+            continue            # a literal used for something else (a message)
+        out[s_] = a if isinstance(a, str) else None
+    return out
+
+
 def builtin_tables(ctx):
     def build():
         F = ctx.facts()
@@ -687,9 +738,12 @@ def builtin_tables(ctx):
         # name -> Builtin from the syntax tree of builtins::resolve (string patterns)
         f = S.func('src/builtins.rs', 'resolve')
         ms = find_all(f['body'], lambda n: n.get('k') == 'match')
-        if len(ms) != 1:
-            raise CheckerError('builtins::resolve: expected one match')
         names = {}
+        if len(ms) != 1:
+            # not written as one match (a table searched with find(), an if-chain): the function is evaluated for every string
+            # literal it or a constant it names contains, and for a string that is none of them
+            names = _resolve_by_evaluation(F)
+            ms = [{'arms': []}]
         for arm in ms[0]['arms']:
             pats = arm['pat']['cases'] if arm['pat']['k'] == 'p_or' else [arm['pat']]
             for p in pats:
